@@ -357,6 +357,8 @@ func runC11(w *World, r *Report) {
 	c11RuleR(w, r, subjects)
 	c11RuleI(w, r, subjects)
 	c11RuleN(w, r, subjects)
+	c11RuleD(w, r, subjects)
+	c11RuleH(w, r, subjects)
 	c11RuleL(w, r, subjects, derefs)
 	collectorRules(w, r, "", "C11/L-collector")
 	r.assume("generated accessors are pure getters over a tree that subject code never mutates (checked: no AddChild/Set*/RemoveLastChild call)")
